@@ -8,6 +8,7 @@
     flush <n> <piece>*                     -> none | some <chunk>
     loop <pinned 0|1> <limit> <n> <stop>* <m> <ev>* -> <reason> np=<k> out=<n> <chunk>* pend=<n> <piece>*
         ev = E (end of sequence) | <piece>
+    cachelen <pinned> <promptLen> <limit> <n> <stop>* <m> <ev>*  -> none | <len(seq.cache.Inputs) at removal>
     loopsched <pinned> <cap> <k> {<tokens> <reads>}*k <tail> <limit> <n> <stop>* <m> <ev>*
         -> <reason> np=<k> recv=<n> <chunk>* buf=<n> <chunk>* pend=<n> <piece>* forced=<n>
         the reader takes <reads> chunks after each of the next <tokens> tokens, then <tail> per token
@@ -80,6 +81,16 @@ def handle (toks : List String) : Option String :=
         | some .stop => "stop"
         | some .length => "length"
       pure s!"{reason} np={st.numPredicted} out={showList st.out} pend={showList st.pending}") rest
+  | "cachelen" :: rest =>
+    runTP (do
+      let pinned ← nat
+      let promptLen ← nat
+      let limit ← int
+      let stops ← listOf hex
+      let evs ← listOf pEv
+      pure (match cacheLenRun (pinned != 0) limit stops promptLen init evs with
+        | none => "none"
+        | some n => s!"{n}")) rest
   | "loopsched" :: rest =>
     runTP (do
       let pinned ← nat
